@@ -323,3 +323,25 @@ package dsl
 //@   property C19
 //@   ensures pow_promotes_by_common_type: typeof(node) == *BinaryExpression && called(GetCommonType) && !called(validationError) && typeof(result) == *BinaryExpression && result.(*BinaryExpression) != nil && result.(*BinaryExpression).Operator == BinaryOpPow && result.(*BinaryExpression).ResolvedType != nil ==> (GetKindIfPrimitive(commonOf()).r0 == PrimitiveKindInteger ==> result.(*BinaryExpression).ResolvedType == Float64Type) && (GetKindIfPrimitive(commonOf()).r0 != PrimitiveKindInteger ==> result.(*BinaryExpression).ResolvedType == commonOf())
 //@   ensures small_integers_promote_to_int32: typeof(node) == *BinaryExpression && called(GetCommonType) && !called(validationError) && typeof(result) == *BinaryExpression && result.(*BinaryExpression) != nil && result.(*BinaryExpression).Operator != BinaryOpPow && result.(*BinaryExpression).ResolvedType != nil ==> ((GetPrimitiveType(commonOf()).primitive == Int8 || GetPrimitiveType(commonOf()).primitive == Uint8 || GetPrimitiveType(commonOf()).primitive == Int16 || GetPrimitiveType(commonOf()).primitive == Uint16) ==> result.(*BinaryExpression).ResolvedType == Int32Type) && (!(GetPrimitiveType(commonOf()).primitive == Int8 || GetPrimitiveType(commonOf()).primitive == Uint8 || GetPrimitiveType(commonOf()).primitive == Int16 || GetPrimitiveType(commonOf()).primitive == Uint16) ==> result.(*BinaryExpression).ResolvedType == commonOf())
+
+// ---- C09 / C04: visitor callbacks must keep descending, otherwise a construct nested deeper is never looked at --
+// Cycle detection / dependency sort: a type reference always descends into its type arguments (a cycle can close
+// through an argument of an imported generic), whatever namespace the referenced definition lives in.
+//@ func topologicalSortTypes@emits:"there is a reference cycle, which is not supported, within namespace '%s': %s"
+//@   property C09,C13
+//@   ensures type_references_always_descend: typeof(node) == *SimpleType && node.(*SimpleType) != nil ==> called("dsl.(VisitorWithContext[Node]).VisitChildren")
+//@   ensures fields_always_descend: typeof(node) == *Field && node.(*Field) != nil ==> called("dsl.(VisitorWithContext[Node]).VisitChildren")
+
+// Schema closure: every type reference descends (type arguments of a second use of the same generic may name types
+// that are reachable in no other way).
+//@ func GetProtocolSchema$1
+//@   property C04,C13
+//@   ensures type_references_always_descend: typeof(node) == *SimpleType && node.(*SimpleType) != nil ==> called("dsl.(Visitor).VisitChildren") && called("dsl.(Visitor).Visit")
+//@   ensures generalized_types_always_descend: typeof(node) == *GeneralizedType ==> called("dsl.(Visitor).VisitChildren")
+
+// ---- C06: "changing the type arguments to a generic type" is incompatible: whenever EITHER use site spells type
+// arguments (and the definitions are not already incompatible), the type arguments of the base definitions are compared.
+//@ func compareSemanticallyEquivalentTypes
+//@   property C06
+//@   requires newType != nil && oldType != nil
+//@   ensures generic_arguments_are_compared: (len(newType.TypeArguments) > 0 || len(oldType.TypeArguments) > 0) && typeof(result) != *TypeChangeIncompatible ==> called(getBaseDefinition)
